@@ -12,6 +12,8 @@ Floating-point and v128 instructions are not proved here: for them the Lean spec
 (`Wz.Spec.Float`, `Wz.Spec.Num`) is the oracle of the differential run (tie B) — see DESIGN.md.
 -/
 import Wz.Proofs.C05_int
+import Wz.Model.ConstPool
+import Wz.Gen.ConstPool
 
 set_option linter.unusedSimpArgs false
 
@@ -327,5 +329,45 @@ theorem i64_rotr_eq (a b : BitVec 64) : i64_rotr b a = .ok [Int.irotr a b] := by
   have hr := rotateLeft_neg (by decide : 0 < 64) a b.toNat
   simp only [i64_rotr, Int.irotr, rotateLeft64, hk, hr]
   rw [← BitVec.rotateRight_mod_eq_rotateRight]
+
+
+/-! ### amd64 back end: constants shared between the instructions of one function -/
+
+/-- the regenerated call sites as (index field, data variable) -/
+def poolPairs : List (String × String) := Wz.Gen.ConstPool.uses.map (fun u => (u.1, u.2.1))
+
+def functionalB (us : List (String × String)) : Bool :=
+  us.all (fun a => us.all (fun b => a.1 != b.1 || a.2 == b.2))
+
+theorem functional_of_functionalB (us : List (String × String)) (h : functionalB us = true) :
+    Wz.Model.ConstPool.Functional us := by
+  intro a ha b hb hab
+  simp only [functionalB, List.all_eq_true] at h
+  have := h a ha b hb
+  simp only [Bool.or_eq_true, bne_iff_ne, ne_eq, beq_iff_eq] at this
+  cases this with
+  | inl hne => exact absurd hab hne
+  | inr he => exact he
+
+/-- **Regenerated obligation**: over all `getOrAllocateConstLabel` call sites of the amd64 back end, no index
+field is paired with two different constants (and no constant is cached under two fields). -/
+theorem const_pool_pairs_one_to_one :
+    functionalB poolPairs = true ∧ functionalB (poolPairs.map (fun p => (p.2, p.1))) = true := by decide
+
+/-- Consequence, for EVERY sequence of lowerings that can happen in one function (any instructions, any
+order, any repetition): each `getOrAllocateConstLabel` call gets the constant it names. -/
+theorem every_lowering_gets_its_constant (seq : List (String × String)) (h : ∀ u ∈ seq, u ∈ poolPairs) :
+    Wz.Model.ConstPool.runUses [] seq = seq.map (·.2) := by
+  apply Wz.Model.ConstPool.each_use_gets_its_constant
+  have hf := functional_of_functionalB poolPairs const_pool_pairs_one_to_one.1
+  exact fun a ha b hb => hf a (h a ha) b (h b hb)
+
+/-- Without the obligation the conclusion fails: the shape of a seeded change (one field used for two
+constants) makes the second instruction compute with the first one's constant. -/
+theorem const_pool_shared_field_witness :
+    Wz.Model.ConstPool.runUses [] [("constAllOnesI8x16Index", "allOnesI8x16"), ("constAllOnesI8x16Index", "allOnesI16x8")]
+      = ["allOnesI8x16", "allOnesI8x16"] := by decide
+
+example : 10 ≤ poolPairs.length := by decide
 
 end Wz.C05
